@@ -25,6 +25,7 @@ func runKV(tr *Tracer, s *Scenario) (ok bool) {
 	ctx := context.Background()
 	hs := map[string]*kvHandle{}
 	mode := s.Cfg.str("mode")
+	e.st.gobRoots = s.Cfg.num("gob", 0) == 1
 	conflicts := 0
 	cfgFor := func(id string) kv.Config {
 		c := kv.Config{
